@@ -1,0 +1,208 @@
+//go:build verif
+
+// Contracts checked by /verif/govc (comment-only file; see /verif/DESIGN.md, properties C32, C33, C27).
+// The TPL scanner is a fork of the same go/scanner ancestor as the XGo scanner; it is put under the SAME lexeme
+// contract (scanner/zz_contracts_verif.go, C15), adapted to its Token-valued Scan.
+package scanner
+
+//@ # Representation invariant of a scanner between calls: the current character s.ch occupies src[offset:rdOffset].
+//@ pred inv(s *Scanner) := s != nil && s.file != nil &&
+//@        0 <= s.offset && s.offset <= s.rdOffset && s.rdOffset <= len(s.src) &&
+//@        (s.ch < 0 ==> s.ch == -1 && s.offset == len(s.src)) &&
+//@        (s.ch >= 0 ==> s.offset < s.rdOffset && s.rdOffset <= s.offset + 4 && s.ch <= 1114111) &&
+//@        (0 <= s.ch && s.ch < 128 ==> s.rdOffset == s.offset + 1 && rune(s.src[s.offset]) == s.ch) &&
+//@        (s.ch >= 128 ==> s.src[s.offset] >= 128)
+//@
+//@ func (*Scanner).error
+//@   option pure_funcs yes
+//@   requires s != nil && s.file != nil
+//@   assigns s.ErrorCount
+//@
+//@ func (*Scanner).errorf
+//@   requires s != nil && s.file != nil
+//@   assigns s.ErrorCount
+//@
+//@ func (*Scanner).next
+//@   requires s != nil && s.file != nil && 0 <= s.rdOffset && s.rdOffset <= len(s.src)
+//@   assigns s.ch, s.offset, s.rdOffset, s.lineOffset, s.ErrorCount
+//@   ensures [inv] inv(s)
+//@   ensures [advance] old(s.rdOffset) < len(s.src) ==> s.offset == old(s.rdOffset) && s.rdOffset > s.offset
+//@   ensures [eof] old(s.rdOffset) >= len(s.src) ==> s.ch == -1 && s.offset == len(s.src) && s.rdOffset == old(s.rdOffset)
+//@   ensures [progress] old(s.offset) < old(s.rdOffset) ==> s.offset > old(s.offset)
+//@   ensures [ascii] old(s.rdOffset) < len(s.src) && s.src[s.offset] < 128 ==> s.ch == rune(s.src[s.offset])
+//@   ensures [mono] s.rdOffset >= old(s.rdOffset) && s.offset >= old(s.rdOffset) || s.offset == len(s.src)
+//@
+//@ func (*Scanner).peek
+//@   pure
+//@   requires s != nil && 0 <= s.rdOffset
+//@   ensures result == (s.rdOffset < len(s.src) ? s.src[s.rdOffset] : 0)
+//@
+//@ func (*Scanner).skipWhitespace
+//@   requires inv(s)
+//@   assigns s.ch, s.offset, s.rdOffset, s.lineOffset, s.ErrorCount
+//@   ensures inv(s) && s.offset >= old(s.offset)
+//@   ensures !(s.ch == ' ' || s.ch == '\t' || s.ch == '\r' || (s.ch == '\n' && !s.insertSemi))
+//@ loop (*Scanner).skipWhitespace#1
+//@   invariant inv(s) && s.offset >= old(s.offset)
+//@   decreases len(s.src) - s.offset
+//@
+//@ func (*Scanner).scanIdentifier
+//@   requires inv(s)
+//@   assigns s.ch, s.offset, s.rdOffset, s.lineOffset, s.ErrorCount
+//@   ensures inv(s) && s.offset >= old(s.offset)
+//@   ensures [progress] isLetter(old(s.ch)) ==> s.offset > old(s.offset)
+//@   ensures [text] result == string(s.src[old(s.offset):s.offset])
+//@   ensures [maximal] !(isLetter(s.ch) || isDigit(s.ch))
+//@ loop (*Scanner).scanIdentifier#1
+//@   invariant inv(s) && s.offset >= offs && offs == old(s.offset)
+//@   invariant isLetter(old(s.ch)) && s.offset == offs ==> s.ch == old(s.ch)
+//@   decreases len(s.src) - s.offset
+//@
+//@ func (*Scanner).digits
+//@   requires inv(s) && (invalid != nil || base >= 10)
+//@   assigns s.ch, s.offset, s.rdOffset, s.lineOffset, s.ErrorCount, *invalid
+//@   ensures inv(s) && s.offset >= old(s.offset) && 0 <= digsep && digsep <= 3
+//@   ensures [progress] (base <= 10 ? isDecimal(old(s.ch)) : isHex(old(s.ch))) ==> s.offset > old(s.offset)
+//@   ensures [invalid] invalid != nil ==> *invalid == old(*invalid) || (old(*invalid) < 0 && old(s.offset) <= *invalid && *invalid < s.offset)
+//@ loop (*Scanner).digits#1
+//@   invariant inv(s) && s.offset >= old(s.offset) && 0 <= digsep && digsep <= 3
+//@   invariant s.offset == old(s.offset) ==> s.ch == old(s.ch)
+//@   invariant invalid != nil ==> *invalid == old(*invalid) || (old(*invalid) < 0 && old(s.offset) <= *invalid && *invalid < s.offset)
+//@   decreases len(s.src) - s.offset
+//@ loop (*Scanner).digits#2
+//@   invariant inv(s) && s.offset >= old(s.offset) && 0 <= digsep && digsep <= 3
+//@   invariant s.offset == old(s.offset) ==> s.ch == old(s.ch)
+//@   invariant invalid != nil ==> *invalid == old(*invalid)
+//@   decreases len(s.src) - s.offset
+//@
+//@ func invalidSep
+//@   pure
+//@   ensures -1 <= result && result < len(x)
+//@ loop invalidSep#1
+//@   invariant 0 <= i && i <= len(x) && (d == '_' ==> i >= 1)
+//@   decreases len(x) - i
+//@
+//@ func (*Scanner).scanEscape
+//@   requires inv(s)
+//@   assigns s.ch, s.offset, s.rdOffset, s.lineOffset, s.ErrorCount
+//@   ensures inv(s) && s.offset >= old(s.offset)
+//@ loop (*Scanner).scanEscape#1
+//@   invariant inv(s) && s.offset >= old(s.offset) && n >= 0
+//@   decreases n
+//@
+//@ func (*Scanner).scanRune
+//@   requires inv(s) && s.offset >= 1
+//@   assigns s.ch, s.offset, s.rdOffset, s.lineOffset, s.ErrorCount
+//@   ensures inv(s) && s.offset >= old(s.offset)
+//@   ensures [text] result == string(s.src[old(s.offset)-1:s.offset])
+//@ loop (*Scanner).scanRune#1
+//@   invariant inv(s) && s.offset >= old(s.offset) && offs == old(s.offset) - 1
+//@   decreases len(s.src) - s.offset
+//@
+//@ func (*Scanner).scanString
+//@   requires inv(s) && s.offset >= 1
+//@   assigns s.ch, s.offset, s.rdOffset, s.lineOffset, s.ErrorCount
+//@   ensures inv(s) && s.offset >= old(s.offset)
+//@   ensures [text] result == string(s.src[old(s.offset)-1:s.offset])
+//@ loop (*Scanner).scanString#1
+//@   invariant inv(s) && s.offset >= old(s.offset) && offs == old(s.offset) - 1
+//@   decreases len(s.src) - s.offset
+//@
+//@ func stripCR
+//@   assigns nothing
+//@   ensures len(result) <= len(b) && fresh(result)
+//@ loop stripCR#1
+//@   invariant 0 <= i && i <= rangeindex + 1 && len(c) == len(b) && fresh(c)
+//@
+//@ func (*Scanner).scanRawString
+//@   requires inv(s) && s.offset >= 1
+//@   assigns s.ch, s.offset, s.rdOffset, s.lineOffset, s.ErrorCount
+//@   ensures inv(s) && s.offset >= old(s.offset)
+//@   ensures [text] len(result) <= s.offset - (old(s.offset)-1)
+//@ loop (*Scanner).scanRawString#1
+//@   invariant inv(s) && s.offset >= old(s.offset) && offs == old(s.offset) - 1
+//@   decreases len(s.src) - s.offset
+//@
+//@ func (*Scanner).scanNumber
+//@   requires inv(s) && s.unitVal == "" && (isDecimal(s.ch) || (s.ch == '.' && isDecimal(rune(peek(s)))))
+//@   assigns s.ch, s.offset, s.rdOffset, s.lineOffset, s.ErrorCount, s.unitVal
+//@   ensures inv(s) && s.offset > old(s.offset)
+//@   ensures [unit] len(s.unitVal) <= s.offset - old(s.offset) && s.unitVal == string(s.src[s.offset-len(s.unitVal):s.offset])
+//@   ensures [text] result1 == string(s.src[old(s.offset):s.offset-len(s.unitVal)])
+//@   ensures [kind] result0 == token.INT || result0 == token.FLOAT || result0 == token.IMAG || result0 == token.RAT
+//@
+//@ # interpretLineComment only feeds the line table, which is not modelled: its contract is ASSUMED (listed in evidence)
+//@ trusted (*Scanner).interpretLineComment
+//@   assigns nothing
+//@
+//@ func (*Scanner).scanComment
+//@   requires inv(s) && s.offset >= 1
+//@   assigns s.ch, s.offset, s.rdOffset, s.lineOffset, s.ErrorCount
+//@   ensures inv(s) && s.offset >= old(s.offset)
+//@   ensures [len] len(result) <= s.offset - (old(s.offset)-1)
+//@ loop (*Scanner).scanComment#1
+//@   invariant inv(s) && s.offset > old(s.offset) && offs == old(s.offset) - 1
+//@   decreases len(s.src) - s.offset
+//@ loop (*Scanner).scanComment#2
+//@   invariant inv(s) && s.offset > old(s.offset) && offs == old(s.offset) - 1
+//@   decreases len(s.src) - s.offset
+//@
+//@ func (*Scanner).scanSharpComment
+//@   requires inv(s) && s.offset >= 1
+//@   assigns s.ch, s.offset, s.rdOffset, s.lineOffset, s.ErrorCount
+//@   ensures inv(s) && s.offset >= old(s.offset)
+//@   ensures [text] result == string(s.src[old(s.offset)-1:s.offset])
+//@ loop (*Scanner).scanSharpComment#1
+//@   invariant inv(s) && s.offset >= old(s.offset) && offs == old(s.offset) - 1
+//@   decreases len(s.src) - s.offset
+//@
+//@ func (*Scanner).findLineEnd
+//@   requires inv(s) && s.offset >= 1 && (s.ch == '/' || s.ch == '*')
+//@   assigns s.ch, s.offset, s.rdOffset, s.lineOffset, s.ErrorCount
+//@   ensures inv(s) && s.offset == old(s.offset) && s.ch == old(s.ch)
+//@ loop (*Scanner).findLineEnd#1
+//@   invariant inv(s) && s.offset >= old(s.offset)
+//@   decreases len(s.src) - s.offset
+//@ loop (*Scanner).findLineEnd#2
+//@   invariant inv(s) && s.offset > old(s.offset) && s.offset > athead(1, s.offset)
+//@   decreases len(s.src) - s.offset
+//@
+//@ # a pending unit suffix (1mm -> INT "1", then UNIT "mm") is the source text just before the current offset
+//@ pred unitOK(s *Scanner) := len(s.unitVal) <= s.offset && s.unitVal == string(s.src[s.offset-len(s.unitVal):s.offset])
+//@ spec fileOff(s *Scanner, pos token.Pos) int := int(pos) - fileBase(s.file)
+//@ spec mu2(s *Scanner) int := 2*b2i(s.unitVal != "") + b2i(s.insertSemi)
+//@
+//@ func (*Scanner).Scan
+//@   requires inv(s) && fileSize(s.file) == len(s.src) && unitOK(s)
+//@   assigns s.ch, s.offset, s.rdOffset, s.lineOffset, s.ErrorCount, s.insertSemi, s.unitVal, s.nParen
+//@   ensures [inv] inv(s) && unitOK(s)
+//@   ensures [posrange] 0 <= fileOff(s, t.Pos) && fileOff(s, t.Pos) <= len(s.src)
+//@   ensures [eof] t.Tok == token.EOF ==> s.offset == len(s.src) && s.ch == -1
+//@   ensures [progress] t.Tok != token.EOF ==> s.offset > old(s.offset) || (s.offset == old(s.offset) && mu2(s) < old(mu2(s)))
+//@   ensures [mono] fileOff(s, t.Pos) >= old(s.offset) - len(old(s.unitVal)) && s.offset - len(s.unitVal) >= fileOff(s, t.Pos)
+//@   ensures [ident-text] t.Tok == token.IDENT ==> t.Lit == string(s.src[fileOff(s, t.Pos):s.offset])
+//@   ensures [num-text] t.Tok == token.INT || t.Tok == token.FLOAT || t.Tok == token.IMAG || t.Tok == token.RAT ==>
+//@             t.Lit == string(s.src[fileOff(s, t.Pos):s.offset-len(s.unitVal)])
+//@   ensures [char-text] t.Tok == token.CHAR ==> t.Lit == string(s.src[fileOff(s, t.Pos):s.offset])
+//@   ensures [string-text] t.Tok == token.STRING && s.src[fileOff(s, t.Pos)] == '"' ==> t.Lit == string(s.src[fileOff(s, t.Pos):s.offset])
+//@   ensures [rawstring-len] t.Tok == token.STRING ==> len(t.Lit) <= s.offset - fileOff(s, t.Pos)
+//@   ensures [unit-text] t.Tok == token.UNIT ==> fileOff(s, t.Pos) + len(t.Lit) == s.offset && t.Lit == string(s.src[fileOff(s, t.Pos):s.offset])
+//@   ensures [semi-text] t.Tok == token.SEMICOLON ==> t.Lit == "\n" || (t.Lit == ";" && s.src[fileOff(s, t.Pos)] == ';' && s.offset == fileOff(s, t.Pos) + 1)
+//@   ensures [op-text] t.Tok > ' ' && t.Tok != token.SEMICOLON && t.Tok < token.Token(len(token.tokens)) ==> s.offset == fileOff(s, t.Pos) + len(token.tokens[t.Tok]) &&
+//@             string(s.src[fileOff(s, t.Pos):s.offset]) == token.tokens[t.Tok]
+//@   ensures [comment-len] t.Tok == token.COMMENT ==> len(t.Lit) <= s.offset - fileOff(s, t.Pos)
+//@ loop (*Scanner).Scan#1
+//@   invariant inv(s) && fileSize(s.file) == len(s.src) && unitOK(s) && s.offset >= old(s.offset)
+//@   invariant s.offset == old(s.offset) ==> s.insertSemi == old(s.insertSemi) && s.unitVal == old(s.unitVal)
+//@   decreases len(s.src) - s.offset
+//@
+//@ func (*Scanner).InitEx
+//@   requires s != nil && file != nil && 0 <= offset && offset <= len(src)
+//@   assigns s.file, s.dir, s.src, s.err, s.mode, s.ch, s.offset, s.rdOffset, s.lineOffset, s.insertSemi, s.ErrorCount
+//@   ensures inv(s) && s.src == src && s.file == file && !s.insertSemi && s.offset >= offset
+//@
+//@ func (*Scanner).Init
+//@   requires s != nil && file != nil
+//@   assigns s.file, s.dir, s.src, s.err, s.mode, s.ch, s.offset, s.rdOffset, s.lineOffset, s.insertSemi, s.ErrorCount
+//@   panics_if fileSize(file) != len(src)
+//@   ensures inv(s) && s.src == src && s.file == file && !s.insertSemi && fileSize(s.file) == len(s.src)
